@@ -516,6 +516,16 @@ func tryConvertToFloat(v any) (float64, bool) {
 // their values, they compare on an equal footing.
 // This function can never fail, so it's not named "tryConvert" like the others.
 func convertToString(v any) string {
+	// %v prints floats in exponent notation from 1e+06 on (and float32 with fewer
+	// digits), so a number that arrived as JSON (always float64) or as a 32-bit msgpack
+	// float would not compare equal to the same number sent as an integer. Print
+	// floats in plain decimal notation, like integers.
+	switch value := v.(type) {
+	case float64:
+		return strconv.FormatFloat(value, 'f', -1, 64)
+	case float32:
+		return strconv.FormatFloat(float64(value), 'f', -1, 64)
+	}
 	return fmt.Sprintf("%v", v)
 }
 
